@@ -40,12 +40,12 @@ def make_primitive(F, storage):
         k = n["k"]
         if k == "Assign" or (k == "OpCall" and n.get("op") == "=" and len(n.get("args", [])) == 2):
             tgt = n["l"] if k == "Assign" else n["args"][0]
-            m = _storage_member(tgt, storage)
+            m = _storage_member(tgt, storage, _ref_aliases(fn))
             if m:
                 return [Event(env.path(tgt), "write", {"field": m})]
             return None if k == "OpCall" else None
         if k == "Call" and n.get("ext") and n.get("short") in STD_MUT and is_node(n.get("recv")):
-            m = _storage_member(n["recv"], storage)
+            m = _storage_member(n["recv"], storage, _ref_aliases(fn))
             if m:
                 return [Event(env.path(n["recv"]), "write", {"field": m})]
             return []
@@ -58,10 +58,30 @@ def make_primitive(F, storage):
     return prim
 
 
-def _storage_member(e, storage):
-    """the storage field an lvalue designates (innermost storage member on the access chain)"""
+def _ref_aliases(fn):
+    if "_ref_alias" not in fn:
+        m = {}
+        assigned = {x["l"]["id"] for x in walk(fn.get("body") or {}) if x["k"] == "Assign" and is_node(x["l"]) and x["l"]["k"] == "Ref"}
+        for d in walk(fn.get("body") or {}):
+            if d["k"] == "Decl":
+                for v in d.get("vars", []):
+                    t = (v.get("ct") or v.get("t") or "").rstrip()
+                    if is_node(v.get("init")) and v["id"] not in assigned and (t.endswith("&") or t.endswith("*") or "(&)" in t or "(*)" in t):
+                        m[v["id"]] = v["init"]
+        fn["_ref_alias"] = m
+    return fn["_ref_alias"]
+
+
+def _storage_member(e, storage, alias=None):
+    """the storage field an lvalue designates (innermost storage member on the access chain; reference / pointer locals are
+    followed to what they were bound to: `auto& n = vertData[i].normal; n[0] = ...`)"""
+    hops = 0
     while is_node(e):
         k = e["k"]
+        if k == "Ref" and alias and e.get("id") in alias and hops < 4:
+            e = alias[e["id"]]
+            hops += 1
+            continue
         if k == "Member" and e.get("mk") == "field":
             if (e.get("owner"), e["name"]) in storage:
                 return (e["owner"], e["name"])
@@ -249,6 +269,83 @@ def run(F, chk):
                               "per-vertex setter that keeps the counts the mirror is stale and the save writes the old data" % (
                                   fn["name"], tgt, bad))
     chk.floor(R3, 4)
+
+    # ---------------------------------------------------------------- R13.4
+    R4 = chk.rule("R13.4", "a NifFile function that builds a shape per game version hands the same input arrays to every variant's "
+                           "Create(...): the set of the function's own parameters forwarded to the Create calls in its version branches "
+                           "is the same in every branch (Create's optional arrays default to nullptr, so a dropped argument compiles "
+                           "and the created shape silently lacks that data in one game only)")
+    n4 = 0
+    for fn in sorted(F.fns.values(), key=lambda f: f["id"]):
+        if fn.get("cls") != NIF or not fn.get("body") or fn.get("tmpl") == "pattern":
+            continue
+        pids = {p_["id"]: p_["name"] for p_ in fn.get("params", [])}
+        calls = []
+        for n in walk(fn["body"]):
+            if n["k"] == "Call" and n.get("short") == "Create" and is_node(n.get("recv")) and not n.get("ext"):
+                rt = (n["recv"].get("ct") or n["recv"].get("t") or "")
+                fwd = set()
+                for a in n.get("args", []):
+                    for x in walk(a):
+                        if x["k"] == "Ref" and x.get("id") in pids:
+                            fwd.add(pids[x["id"]])
+                calls.append((n, fwd))
+        if len(calls) < 2:
+            continue
+        union = set().union(*[f_ for _, f_ in calls])
+        for n, fwd in calls:
+            n4 += 1
+            ok = fwd == union
+            chk.instance(R4, ok=ok, sample={"fn": fn["name"], "create_call_at": n.get("loc"), "forwards": sorted(fwd)})
+            if not ok:
+                chk.violation("R13.4", "C13/R13.4:%s:%s" % (fn["name"].split("(")[0], ",".join(sorted(union - fwd))), where(fn, n),
+                              "%s forwards %s to the Create call of its other version branches but not to this one: a shape created "
+                              "for this game lacks the data the caller supplied (the parameter defaults to nullptr)" %
+                              (fn["name"], ", ".join("`%s`" % x for x in sorted(union - fwd))))
+    chk.floor(R4, 3)
+
+    # ---------------------------------------------------------------- R13.5
+    R5 = chk.rule("R13.5", "Create(...) re-derives the vertex count of a geometry object, so it (re)initialises every array the class's "
+                           "reader sizes to that count: an array it leaves alone keeps its old length when Create is used to re-create an "
+                           "existing shape with another vertex count (NifFile::SetVertsForShape does), and 'all per-vertex arrays keep "
+                           "the vertex count' no longer holds")
+    import c02 as _c02
+    S5 = paths.Summarizer(F, _c02.make_primitive(F), mode=flow.MODE_READ, value_proxies=True,
+                          node_kinds=("Call", "OpCall", "Construct", "Assign", "Unary"))
+    W5 = paths.Summarizer(F, _c02.make_primitive(F), mode=None, value_proxies=False,
+                          node_kinds=("Call", "OpCall", "Construct", "Assign", "Unary"))
+    n5 = 0
+    for cfn in sorted(F.fns.values(), key=lambda f: f["id"]):
+        if cfn.get("short") != "Create" or not cfn.get("cls") or not cfn.get("body") or cfn.get("tmpl") == "pattern":
+            continue
+        cls = cfn["cls"]
+        if not (F.derives_from(cls, "nifly::NiGeometryData") or F.derives_from(cls, "nifly::BSTriShape")):
+            continue
+        wev = W5.events(cfn["id"])
+        written = {ev.path[1] for ev in wev if ev.path and ev.path[0][0] == "this" and len(ev.path) > 1 and ev.kind in ("mut", "write", "assign")}
+        if not any(ev.path and ev.path[0][0] == "this" and len(ev.path) > 1 and ev.path[1] == "numVertices" and len(ev.chain) == 1
+                   and ev.kind in ("mut", "write", "assign") for ev in wev):
+            continue  # this Create does not re-derive the vertex count itself (it delegates to a base Create, judged there)
+        gets = F.method(cls, "Get")
+        if not gets:
+            continue
+        varrays = {}
+        for ev in S5.events(gets[0]["id"]):
+            if ev.kind == "mut" and ev.info.get("op") == "resize" and ev.path is not None and ev.path[0][0] == "this" and len(ev.path) == 2:
+                sp = ev.info.get("size_path")
+                if sp is not None and render(sp) == "numVertices":
+                    varrays[ev.path[1]] = ev
+        for arr in sorted(varrays):
+            n5 += 1
+            ok = arr in written
+            owner, _ = F.find_field(cls, arr)
+            chk.instance(R5, ok=ok, sample={"create": cfn["name"], "array": "%s::%s" % (owner, arr)})
+            if not ok:
+                chk.violation("R13.5", "C13/R13.5:%s:%s" % (cfn["name"].split("(")[0], arr), where(cfn),
+                              "%s assigns numVertices but never touches `%s`, which %s sizes to the vertex count: re-creating a shape "
+                              "with another number of vertices leaves that array at its old length (the getter hands out the old "
+                              "entries, the writer pads or cuts them)" % (cfn["name"], arr, gets[0]["name"]))
+    chk.floor(R5, 4)
 
     chk.assumptions += ["quantisation (half floats, byte colours/normals), triangle order, vertex-count preservation and save/reload "
                         "equality are value-level and NOT decided by this check"]
